@@ -39,6 +39,12 @@ PYVC_MODULES = [
     "contracts.fuse_entry",
     "contracts.fuselayout",
     "contracts.dims",
+    "contracts.einsum",
+    "contracts.fermi_structural",
+    "contracts.interface_dispatch",
+    "contracts.transpose_axes",
+    "contracts.reshape_driver",
+    "contracts.reductions",
 ]
 
 # Dependency closure: a property also rests on the functions its anchored code CALLS.  A contract task is run
